@@ -246,6 +246,7 @@ package runtime
 //@ ensures ctx.stackCur != nil && fresh(ctx.stackCur) && ctx.stackCur.Data != nil
 //@ ensures ctx.stackCur.Before == old(ctx.stackCur)
 //@ ensures ctx.stackCur.depth == old(ctx.stackCur.depth) + 1
+//@ ensures[C03] forall n string :: !dom(ctx.stackCur.Data, n)
 
 //@ func (*Task).StackExitCur
 //@ props C01 C03
